@@ -148,26 +148,26 @@ package vm
 //@ func Rewind
 //@   serves C04
 //@   requires st != nil && memOk(ca)
-//@   requires[C05,C08] memWf(ca)
+//@   requires memWf(ca)
 //@   modifies st.ExecPath, st.SizeIdx, st.Moves, st.lastMove, cac(ca).Cache, cac(ca).Cache[*], cac(ca).CacheUseSize, cac(ca).Sizes[*]
 //@   ensures @top old(depth(st)) >= 1 ==> result1 == nil && depth(st) == 1 && st.ExecPath[0] == old(st.ExecPath[0])
 //@   ensures @idx old(depth(st)) > 1 ==> st.SizeIdx == 0 && result0 == st.ExecPath[0]
 //@   ensures @attop old(depth(st)) <= 1 ==> state.samePosition(st) && (old(depth(st)) == 1 ==> result0 == sym)
 //@   ensures @noerr result1 == nil
 //@   ensures @mem memOk(ca) && (sameBacking(cac(ca).Cache, old(cac(ca).Cache)) || fresh(cac(ca).Cache))
-//@   ensures[C05,C08] @memwf memWf(ca)
-//@   ensures[C05,C08] @known cache.scopesKnown(cac(ca))
-//@   ensures[C05,C08] @levels old(depth(st)) >= 1 ==> levels(ca) == max(1, old(levels(ca)) - (old(depth(st)) - 1))
-//@   ensures[C05,C08] @levels0 old(depth(st)) == 0 ==> levels(ca) == old(levels(ca))
+//@   ensures @memwf memWf(ca)
+//@   ensures @known cache.scopesKnown(cac(ca))
+//@   ensures @levels old(depth(st)) >= 1 ==> levels(ca) == max(1, old(levels(ca)) - (old(depth(st)) - 1))
+//@   ensures @levels0 old(depth(st)) == 0 ==> levels(ca) == old(levels(ca))
 //@   loop 1 modifies st.ExecPath, st.SizeIdx, st.Moves, st.lastMove, cac(ca).Cache, cac(ca).Cache[*], cac(ca).CacheUseSize, cac(ca).Sizes[*]
 //@   loop 1 invariant @mem memOk(ca) && (sameBacking(cac(ca).Cache, loopold(cac(ca).Cache)) || loopfresh(cac(ca).Cache))
-//@   loop 1 invariant[C05,C08] @memwf memWf(ca)
-//@   loop 1 invariant[C05,C08] @known cache.scopesKnown(cac(ca))
+//@   loop 1 invariant @memwf memWf(ca)
+//@   loop 1 invariant @known cache.scopesKnown(cac(ca))
 //@   loop 1 invariant @path depth(st) <= old(depth(st)) && (old(depth(st)) >= 1 ==> depth(st) >= 1 && st.ExecPath[0] == old(st.ExecPath[0]))
 //@   loop 1 invariant @moved depth(st) < old(depth(st)) ==> st.SizeIdx == 0 && sym == state.last(st)
 //@   loop 1 invariant @unmoved depth(st) == old(depth(st)) ==> state.samePosition(st) && sym == old(sym)
-//@   loop 1 invariant[C05,C08] @levels old(depth(st)) >= 1 ==> levels(ca) == max(1, old(levels(ca)) - (old(depth(st)) - depth(st)))
-//@   loop 1 invariant[C05,C08] @levels0 old(depth(st)) == 0 ==> levels(ca) == old(levels(ca))
+//@   loop 1 invariant @levels old(depth(st)) >= 1 ==> levels(ca) == max(1, old(levels(ca)) - (old(depth(st)) - depth(st)))
+//@   loop 1 invariant @levels0 old(depth(st)) == 0 ==> levels(ca) == old(levels(ca))
 
 // The documented move table (doc/texinfo/navigation.texi), as a contract on
 // the single function that every MOVE, INCMP and CATCH goes through.
@@ -193,11 +193,12 @@ package vm
 //@ func applyTarget
 //@   serves C04, C03, C02
 //@   requires st != nil && memOk(ca)
-//@   requires[C05,C08] memWf(ca)
-//@   requires canDescend(st, tgt(target))
+//@   requires memWf(ca)
+//@   premise notSelf(st, tgt(target))
+//@   requires[C08] @maxlevel belowMax(st, tgt(target))
 //@   modifies st.ExecPath, st.ExecPath[*], st.SizeIdx, st.Moves, st.lastMove, cac(ca).Cache, cac(ca).Cache[*], cac(ca).CacheUseSize, cac(ca).Sizes[*]
 //@   ensures @mem memOk(ca)
-//@   ensures[C05,C08] @memwf memWf(ca)
+//@   ensures @memwf memWf(ca)
 //@   ensures @moved result2 == nil && (old(depth(st)) >= 1 || isNode(tgt(target))) ==> moveTable(st, tgt(target))
 //@   ensures @refused old(moveRefused(st, tgt(target))) ==> result2 != nil
 //@   ensures @accepted !old(moveRefused(st, tgt(target))) && old(depth(st)) >= 1 ==> result2 == nil
@@ -205,9 +206,9 @@ package vm
 //@   ensures @failed result2 != nil ==> state.samePosition(st)
 //@   ensures @errkind result2 != nil && errIs(result2, state.IndexError) ==> tgt(target) == "<" && old(depth(st)) > 0 && old(st.SizeIdx) == 0
 //@   ensures @where result2 == nil && depth(st) > 0 && (old(depth(st)) >= 1 || isNode(tgt(target))) ==> result0 == state.last(st)
-//@   ensures[C05,C08] @lockstep old(levels(ca)) == old(depth(st)) + 1 ==> levels(ca) == depth(st) + 1
-//@   ensures[C05,C08] @lockfail result2 != nil ==> levels(ca) == old(levels(ca))
-//@   ensures[C05,C08] @known cache.scopesKnown(cac(ca))
+//@   ensures[C08] @lockstep old(levels(ca)) == old(depth(st)) + 1 ==> levels(ca) == depth(st) + 1
+//@   ensures[C08] @lockfail result2 != nil ==> levels(ca) == old(levels(ca))
+//@   ensures @known cache.scopesKnown(cac(ca))
 
 // ---- the VM object (runner.go) ----
 // The renderer hangs off the Vm: one Page, the current Menu (replaced on every
@@ -244,24 +245,24 @@ package vm
 //@ func (*Vm).runMove
 //@   requires render.pageOk(vm.pg)
 //@   ensures @page render.pageOk(vm.pg)
-//@   requires[C05,C08] mapSep(vm)
-//@   ensures[C05,C08] @mapsep mapSep(vm)
+//@   requires mapSep(vm)
+//@   ensures @mapsep mapSep(vm)
 //@   serves C04, C05
 //@   requires vmOk(vm)
-//@   requires[C05,C08] memWf(vm.ca)
+//@   requires memWf(vm.ca)
 //@   premise okStr(b, 0) ==> notSelf(vm.st, strAt(b, 0))
-//@   requires @maxlevel okStr(b, 0) ==> belowMax(vm.st, strAt(b, 0))
+//@   requires[C08] @maxlevel okStr(b, 0) ==> belowMax(vm.st, strAt(b, 0))
 //@   requires codeSep(vm, b)
 //@   modifies navMods(vm.st, vm.ca), resetMods(vm), count(codegets), b[*]
 //@   ensures @vm vmOk(vm)
 //@   ensures @flags flagsKept(vm)
 //@   ensures @sep codeSep(vm, result0)
-//@   ensures[C05,C08] @memwf memWf(vm.ca)
+//@   ensures @memwf memWf(vm.ca)
 //@   ensures @decode !okStr(b, 0) ==> result1 != nil && posKept(vm)
 //@   ensures @moved result1 == nil && (old(depth(vm.st)) >= 1 || isNode(strAt(b, 0))) ==> moveTable(vm.st, strAt(b, 0))
 //@   ensures @failed result1 != nil && (old(depth(vm.st)) >= 1 || isNode(strAt(b, 0))) ==> posKept(vm) || moveTable(vm.st, strAt(b, 0))
 //@   ensures[C05,C07] @unmapped result1 == nil ==> unmapped(vm)
-//@   ensures[C05,C08] @lockstep old(levels(vm.ca)) == old(depth(vm.st)) + 1 ==> levels(vm.ca) == depth(vm.st) + 1
+//@   ensures[C08] @lockstep old(levels(vm.ca)) == old(depth(vm.st)) + 1 ==> levels(vm.ca) == depth(vm.st) + 1
 
 // CATCH: moves exactly when the flag's state equals the mode.
 // argument layout: symbol, flag number, mode byte
@@ -272,49 +273,49 @@ package vm
 //@ func (*Vm).runCatch
 //@   requires render.pageOk(vm.pg)
 //@   ensures @page render.pageOk(vm.pg)
-//@   requires[C05,C08] mapSep(vm)
-//@   ensures[C05,C08] @mapsep mapSep(vm)
+//@   requires mapSep(vm)
+//@   ensures @mapsep mapSep(vm)
 //@   serves C06, C04, C05
 //@   requires vmOk(vm) && codeSep(vm, b)
-//@   requires[C05,C08] memWf(vm.ca)
+//@   requires memWf(vm.ca)
 //@   premise okCatch(b) ==> catchSig(b) < int(vm.st.BitSize) && notSelf(vm.st, strAt(b, 0))
-//@   requires @maxlevel okCatch(b) ==> belowMax(vm.st, strAt(b, 0))
+//@   requires[C08] @maxlevel okCatch(b) ==> belowMax(vm.st, strAt(b, 0))
 //@   modifies navMods(vm.st, vm.ca), count(codegets)
 //@   ensures @vm vmOk(vm)
 //@   ensures @flags flagsKept(vm)
 //@   ensures @sep codeSep(vm, result0)
-//@   ensures[C05,C08] @memwf memWf(vm.ca)
+//@   ensures @memwf memWf(vm.ca)
 //@   ensures @decode !okCatch(b) ==> result1 != nil && posKept(vm) && count(codegets) == old(count(codegets))
 //@   ensures @nomatch okCatch(b) && old(fl(vm, catchSig(b))) != catchMode(b) ==> result1 == nil && posKept(vm) && result0 == catchRest(b)
 //@     && count(codegets) == old(count(codegets)) && levels(vm.ca) == old(levels(vm.ca))
 //@   ensures @match okCatch(b) && old(fl(vm, catchSig(b))) == catchMode(b) && result1 == nil && (old(depth(vm.st)) >= 1 || isNode(strAt(b, 0))) ==> moveTable(vm.st, strAt(b, 0))
 //@   ensures @refused okCatch(b) && old(fl(vm, catchSig(b))) == catchMode(b) && old(moveRefused(vm.st, strAt(b, 0))) ==> result1 != nil && posKept(vm)
-//@   ensures[C05,C08] @lockstep old(levels(vm.ca)) == old(depth(vm.st)) + 1 ==> levels(vm.ca) == depth(vm.st) + 1
+//@   ensures[C08] @lockstep old(levels(vm.ca)) == old(depth(vm.st)) + 1 ==> levels(vm.ca) == depth(vm.st) + 1
 
 // CROAK: under the same test, abandons the pending bytecode.
 //@ pred okCroak(b) = okInt(b, 0) && afterInt(b, 0) < len(b)
 //@ func (*Vm).runCroak
 //@   requires render.pageOk(vm.pg)
 //@   ensures @page render.pageOk(vm.pg)
-//@   requires[C05,C08] mapSep(vm)
-//@   ensures[C05,C08] @mapsep mapSep(vm)
+//@   requires mapSep(vm)
+//@   ensures @mapsep mapSep(vm)
 //@   serves C06
 //@   requires vmOk(vm) && codeSep(vm, b)
-//@   requires[C05,C08] memWf(vm.ca)
+//@   requires memWf(vm.ca)
 //@   premise okCroak(b) ==> intAt(b, 0) < int(vm.st.BitSize)
 //@   modifies resetMods(vm), cac(vm.ca).Cache, cac(vm.ca).CacheUseSize
 //@   ensures @vm vmOk(vm)
 //@   ensures @flags flagsKept(vm) && posKept(vm)
 //@   ensures @sep codeSep(vm, result0)
-//@   ensures[C05,C08] @memwf memWf(vm.ca)
+//@   ensures @memwf memWf(vm.ca)
 //@   ensures @decode !okCroak(b) ==> result1 != nil
 //@   ensures @nomatch okCroak(b) && old(fl(vm, intAt(b, 0))) != (int(b[afterInt(b, 0)]) > 0) ==> result1 == nil && result0 == b[afterInt(b, 0) + 1:] && levels(vm.ca) == old(levels(vm.ca))
 //@   ensures @match okCroak(b) && old(fl(vm, intAt(b, 0))) == (int(b[afterInt(b, 0)]) > 0) ==> result1 == nil && len(result0) == 0 && levels(vm.ca) == 1
 //@   ensures[C08] @lockstep old(levels(vm.ca)) == old(depth(vm.st)) + 1 ==> levels(vm.ca) == depth(vm.st) + 1
 
 //@ func (*Vm).runHalt
-//@   requires[C05,C08] memWf(vm.ca) && mapSep(vm)
-//@   ensures[C05,C08] @session memWf(vm.ca) && mapSep(vm)
+//@   requires memWf(vm.ca) && mapSep(vm)
+//@   ensures @session memWf(vm.ca) && mapSep(vm)
 //@   requires render.pageOk(vm.pg)
 //@   ensures @page render.pageOk(vm.pg) && levels(vm.ca) == old(levels(vm.ca))
 //@   serves C03
@@ -333,17 +334,17 @@ package vm
 //@ func (*Vm).runInCmp
 //@   requires render.pageOk(vm.pg)
 //@   ensures @page render.pageOk(vm.pg)
-//@   requires[C05,C08] mapSep(vm)
-//@   ensures[C05,C08] @mapsep mapSep(vm)
+//@   requires mapSep(vm)
+//@   ensures @mapsep mapSep(vm)
 //@   serves C03, C04, C05
 //@   requires vmOk(vm) && codeSep(vm, b)
-//@   requires[C05,C08] memWf(vm.ca)
+//@   requires memWf(vm.ca)
 //@   premise okInCmp(b) ==> notSelf(vm.st, icNode(b))
-//@   requires @maxlevel okInCmp(b) ==> belowMax(vm.st, icNode(b))
+//@   requires[C08] @maxlevel okInCmp(b) ==> belowMax(vm.st, icNode(b))
 //@   modifies vm.st.Flags[*], navMods(vm.st, vm.ca), resetMods(vm), count(codegets), b[*]
 //@   ensures @vm vmOk(vm)
 //@   ensures @sep codeSep(vm, result0)
-//@   ensures[C05,C08] @memwf memWf(vm.ca)
+//@   ensures @memwf memWf(vm.ca)
 //@   ensures @decode old(!okInCmp(b)) ==> result1 != nil && posKept(vm) && flagsKept(vm)
 //@   ensures[C03] @once old(okInCmp(b) && fl(vm, state.FLAG_INMATCH) && vm.st.input != nil) ==> posKept(vm) && result1 == nil && result0 == old(icRest(b))
 //@     && count(codegets) == old(count(codegets)) && levels(vm.ca) == old(levels(vm.ca))
@@ -356,7 +357,7 @@ package vm
 //@     && depth(vm.st) > 0 && vm.st.SizeIdx == 0) ==> result1 == nil && posKept(vm) && fl(vm, state.FLAG_READIN) && fl(vm, state.FLAG_INMATCH)
 //@   ensures[C03] @otherflags state.clientFlagsSame(vm.st) && forall(n, 2, 8, bit(vm.st.Flags[0], n) == old(bit(vm.st.Flags[0], n)))
 //@   ensures[C05,C07] @unmapped result1 == nil && !posKept(vm) ==> unmapped(vm)
-//@   ensures[C05,C08] @lockstep old(levels(vm.ca)) == old(depth(vm.st)) + 1 ==> levels(vm.ca) == depth(vm.st) + 1
+//@   ensures[C08] @lockstep old(levels(vm.ca)) == old(depth(vm.st)) + 1 ==> levels(vm.ca) == depth(vm.st) + 1
 
 // LOAD/RELOAD back end: at most one external call; the reserved flags 0..5 are
 // not writable by the external function (LOADFAIL is set by the VM itself on
@@ -392,15 +393,15 @@ package vm
 //@   ensures @page render.pageOk(vm.pg)
 //@   requires codeSep(vm, b)
 //@   ensures @sep codeSep(vm, result0)
-//@   requires[C05,C08] mapSep(vm)
-//@   ensures[C05,C08] @mapsep mapSep(vm)
+//@   requires mapSep(vm)
+//@   ensures @mapsep mapSep(vm)
 //@   serves C05
 //@   requires vmOk(vm) && noWrap(vm)
-//@   requires[C05,C08] memWf(vm.ca)
+//@   requires memWf(vm.ca)
 //@   modifies vm.last, vm.st.Flags[*], vm.st.Language, count(extcalls)
 //@   modifies cac(vm.ca).CacheUseSize, cac(vm.ca).LastValue, cac(vm.ca).Sizes[loadSym(b)], topScope(vm)[loadSym(b)]
 //@   ensures @vm vmOk(vm) && posKept(vm) && levels(vm.ca) == old(levels(vm.ca))
-//@   ensures[C05,C08] @memwf memWf(vm.ca)
+//@   ensures @memwf memWf(vm.ca)
 //@   ensures @decode old(!okLoad(b)) ==> result1 != nil && count(extcalls) == old(count(extcalls))
 //@   ensures[C05] @once count(extcalls) <= old(count(extcalls)) + 1
 //@   ensures[C05] @skip old(okLoad(b) && cache.visible(cac(vm.ca), loadSym(b))) ==> result1 == nil && count(extcalls) == old(count(extcalls))
@@ -414,8 +415,8 @@ package vm
 
 // MAP <symbol>
 //@ func (*Vm).runMap
-//@   requires[C05,C08] memWf(vm.ca) && mapSep(vm)
-//@   ensures[C05,C08] @session memWf(vm.ca) && mapSep(vm) && levels(vm.ca) == old(levels(vm.ca))
+//@   requires memWf(vm.ca) && mapSep(vm)
+//@   ensures @session memWf(vm.ca) && mapSep(vm) && levels(vm.ca) == old(levels(vm.ca))
 //@   requires codeSep(vm, b)
 //@   ensures @sep codeSep(vm, result0)
 //@   serves C05
@@ -431,15 +432,15 @@ package vm
 //@ func (*Vm).runReload
 //@   requires codeSep(vm, b)
 //@   ensures @sep codeSep(vm, result0)
-//@   requires[C05,C08] mapSep(vm)
-//@   ensures[C05,C08] @mapsep mapSep(vm)
+//@   requires mapSep(vm)
+//@   ensures @mapsep mapSep(vm)
 //@   serves C05
 //@   requires vmOk(vm) && noWrap(vm) && render.pageOk(vm.pg)
-//@   requires[C05,C08] memWf(vm.ca)
+//@   requires memWf(vm.ca)
 //@   modifies vm.last, vm.st.Flags[*], vm.st.Language, count(extcalls), cac(vm.ca).CacheUseSize, scopeOf(vm, loadSym(b))[loadSym(b)]
 //@   modifies vm.pg.sink, vm.pg.cacheMap[*], vm.pg.sizer.memberSizes[*], vm.pg.sizer.sink, vm.pg.sizer.totalMemberSize
 //@   ensures @vm vmOk(vm) && posKept(vm) && levels(vm.ca) == old(levels(vm.ca)) && render.pageOk(vm.pg)
-//@   ensures[C05,C08] @memwf memWf(vm.ca)
+//@   ensures @memwf memWf(vm.ca)
 //@   ensures @decode old(!okStr(b, 0)) ==> result1 != nil && count(extcalls) == old(count(extcalls))
 //@   ensures[C05] @once count(extcalls) <= old(count(extcalls)) + 1 && (result1 == nil ==> count(extcalls) == old(count(extcalls)) + 1)
 //@   ensures[C05] @mapped result1 == nil ==> in(old(loadSym(b)), vm.pg.cacheMap) && vm.pg.cacheMap[old(loadSym(b))] == scopeOf(vm, old(loadSym(b)))[old(loadSym(b))]
@@ -447,32 +448,32 @@ package vm
 // ---- menu instructions: change the current menu only ----
 //@ modset menuMods(vm) = vm.mn.menu, vm.mn.menu[*], vm.mn.sink, vm.mn.pageCount, vm.mn.browse
 //@ func (*Vm).runMSink
-//@   requires[C05,C08] memWf(vm.ca) && mapSep(vm)
-//@   ensures[C05,C08] @session memWf(vm.ca) && mapSep(vm)
+//@   requires memWf(vm.ca) && mapSep(vm)
+//@   ensures @session memWf(vm.ca) && mapSep(vm)
 //@   requires render.pageOk(vm.pg)
 //@   ensures @page render.pageOk(vm.pg) && levels(vm.ca) == old(levels(vm.ca))
 //@   requires vmOk(vm)
 //@   modifies menuMods(vm)
 //@   ensures @vm vmOk(vm) && posKept(vm) && flagsKept(vm) && result0 == b && vm.mn == old(vm.mn)
 //@ func (*Vm).runMOut
-//@   requires[C05,C08] memWf(vm.ca) && mapSep(vm)
-//@   ensures[C05,C08] @session memWf(vm.ca) && mapSep(vm)
+//@   requires memWf(vm.ca) && mapSep(vm)
+//@   ensures @session memWf(vm.ca) && mapSep(vm)
 //@   requires render.pageOk(vm.pg)
 //@   ensures @page render.pageOk(vm.pg) && levels(vm.ca) == old(levels(vm.ca))
 //@   requires vmOk(vm)
 //@   modifies menuMods(vm)
 //@   ensures @vm vmOk(vm) && posKept(vm) && flagsKept(vm) && vm.mn == old(vm.mn) && (result0 == nil || sameBacking(result0, b))
 //@ func (*Vm).runMNext
-//@   requires[C05,C08] memWf(vm.ca) && mapSep(vm)
-//@   ensures[C05,C08] @session memWf(vm.ca) && mapSep(vm)
+//@   requires memWf(vm.ca) && mapSep(vm)
+//@   ensures @session memWf(vm.ca) && mapSep(vm)
 //@   requires render.pageOk(vm.pg)
 //@   ensures @page render.pageOk(vm.pg) && levels(vm.ca) == old(levels(vm.ca))
 //@   requires vmOk(vm)
 //@   modifies menuMods(vm)
 //@   ensures @vm vmOk(vm) && posKept(vm) && flagsKept(vm) && vm.mn == old(vm.mn) && (result0 == nil || sameBacking(result0, b))
 //@ func (*Vm).runMPrev
-//@   requires[C05,C08] memWf(vm.ca) && mapSep(vm)
-//@   ensures[C05,C08] @session memWf(vm.ca) && mapSep(vm)
+//@   requires memWf(vm.ca) && mapSep(vm)
+//@   ensures @session memWf(vm.ca) && mapSep(vm)
 //@   requires render.pageOk(vm.pg)
 //@   ensures @page render.pageOk(vm.pg) && levels(vm.ca) == old(levels(vm.ca))
 //@   requires vmOk(vm)
@@ -483,8 +484,8 @@ package vm
 
 // errors of an instruction: shown on the page; with LOADFAIL set they become MOVE _catch
 //@ func (*Vm).runErrCheck
-//@   requires[C05,C08] memWf(vm.ca) && mapSep(vm)
-//@   ensures[C05,C08] @session memWf(vm.ca) && mapSep(vm)
+//@   requires memWf(vm.ca) && mapSep(vm)
+//@   ensures @session memWf(vm.ca) && mapSep(vm)
 //@   requires render.pageOk(vm.pg) && codeSep(vm, b)
 //@   ensures @page render.pageOk(vm.pg) && levels(vm.ca) == old(levels(vm.ca))
 //@   ensures @sep codeSep(vm, result0)
@@ -498,8 +499,8 @@ package vm
 // out of bytecode: TERMINATE outside input handling (C20), otherwise the
 // unmatched input goes to the catch node with an invalid-input message (C03)
 //@ func (*Vm).runDeadCheck
-//@   requires[C05,C08] memWf(vm.ca) && mapSep(vm)
-//@   ensures[C05,C08] @session memWf(vm.ca) && mapSep(vm)
+//@   requires memWf(vm.ca) && mapSep(vm)
+//@   ensures @session memWf(vm.ca) && mapSep(vm)
 //@   requires render.pageOk(vm.pg) && codeSep(vm, b)
 //@   ensures @page render.pageOk(vm.pg) && levels(vm.ca) == old(levels(vm.ca))
 //@   ensures @sep codeSep(vm, result0)
@@ -520,21 +521,24 @@ package vm
 // consistent, the cache representation invariant holds, the cache has one
 // scope per navigation level, the pending code does not alias the flags.
 //@ pred runInv(vm, b) = vmOk(vm) && noWrap(vm) && render.pageOk(vm.pg) && codeSep(vm, b)
-//@ pred session(vm) = memWf(vm.ca) && mapSep(vm) && levels(vm.ca) == depth(vm.st) + 1
+//@ pred session(vm) = memWf(vm.ca) && mapSep(vm)
+//@ pred lockstep(vm) = levels(vm.ca) == depth(vm.st) + 1
 // the Vm keeps its parts
 //@ pred sameParts(vm) = vm.st == old(vm.st) && vm.ca == old(vm.ca) && vm.pg == old(vm.pg) && vm.rs == old(vm.rs) && vm.sizer == old(vm.sizer)
 //@ pred untouched(vm) = posKept(vm) && flagsKept(vm) && count(extcalls) == old(count(extcalls)) && count(codegets) == old(count(codegets)) && levels(vm.ca) == old(levels(vm.ca))
 //@ func (*Vm).Run
 //@   serves C03, C06, C08, C20, C05, C04
 //@   requires runInv(vm, b)
-//@   requires[C05,C08] session(vm)
+//@   requires session(vm)
+//@   requires[C08] lockstep(vm)
 //@   modifies everything
 //@   ensures @vm vmOk(vm)
 //@   ensures @nowrap noWrap(vm)
 //@   ensures @page render.pageOk(vm.pg)
 //@   ensures @sep codeSep(vm, result0)
 //@   ensures @parts sameParts(vm)
-//@   ensures[C05,C08] @session session(vm)
+//@   ensures @session session(vm)
+//@   ensures[C08] @lockstep lockstep(vm)
 //@   ensures[C06,C20] @blocked old(fl(vm, state.FLAG_TERMINATE)) ==> result1 == nil && len(result0) == 0 && untouched(vm)
 //@   loop 1 modifies everything
 //@   loop 1 invariant @vm vmOk(vm)
@@ -542,11 +546,12 @@ package vm
 //@   loop 1 invariant @page render.pageOk(vm.pg)
 //@   loop 1 invariant @sep codeSep(vm, b)
 //@   loop 1 invariant @parts sameParts(vm)
-//@   loop 1 invariant[C05,C08] @session session(vm)
+//@   loop 1 invariant @session session(vm)
+//@   loop 1 invariant[C08] @lockstep lockstep(vm)
 //@   loop 1 invariant[C06,C20] @first old(fl(vm, state.FLAG_TERMINATE)) ==> untouched(vm)
-// no instruction is dispatched while TERMINATE is set
-//@   callsite * assert[C06,C20] @gate !iterold(fl(vm, state.FLAG_TERMINATE))
-// when execution resumes after a HALT, INMATCH is clear before the first INCMP (C03)
-//@   callsite (*Vm).runInCmp assert[C03] @resumed iterold(fl(vm, state.FLAG_WAIT)) ==> !fl(vm, state.FLAG_INMATCH)
+// no instruction is decoded or dispatched while TERMINATE is set
+//@   callsite opSplit assert[C06,C20] @gate !iterold(fl(vm, state.FLAG_TERMINATE))
+// when execution resumes after a HALT, INMATCH is clear before the next instruction is decoded (C03)
+//@   callsite opSplit assert[C03] @resumed iterold(fl(vm, state.FLAG_WAIT)) ==> !fl(vm, state.FLAG_INMATCH)
 // ... and the renderer carries nothing over (C05, C07)
-//@   callsite * assert[C05,C07] @fresh iterold(fl(vm, state.FLAG_WAIT)) ==> unmapped(vm) && len(vm.mn.menu) == 0 && !vm.mn.sink
+//@   callsite opSplit assert[C05,C07] @fresh iterold(fl(vm, state.FLAG_WAIT)) ==> unmapped(vm) && len(vm.mn.menu) == 0 && !vm.mn.sink
